@@ -180,6 +180,8 @@ func (r *runner) http(st Step) {
 		ctype = "application/json; charset=latin1"
 	case "garbage":
 		body = `{"jsonrpc":"2.0",`
+	case "trailing": // a complete, well-formed message followed by more bytes: the body as a whole is not valid JSON
+		body += []string{"]", " garbage", body, ","}[len(st.Mem)%4]
 	case "emptyarr":
 		body = `[]`
 	case "ok":
